@@ -113,6 +113,13 @@ func checkFlow(p flowParams, x *verifkit.Exec) []verifkit.Violation {
 					// C02(c): only forward, never back to empty
 					if q < lastPos[s] {
 						a.bad("C02/position-backwards", "stored position of %s went from record %d back to %d at commit #%d (event #%d)", s, lastPos[s], q, e.Idx, e.Seq)
+						// C03: a crash right after this commit finds the store behind what the plugin was already told
+						for k, seq := range srcAckSeq {
+							if k.src == s && k.idx > q && seq < e.Seq {
+								a.bad("C03/upstream-told-to-discard-beyond-disk", "a crash right after commit #%d (event #%d) loses data on a pruning upstream: %s was already told record %d is acknowledged (event #%d) but the store now holds position %d again", e.Idx, e.Seq, s, k.idx, seq, q)
+								break
+							}
+						}
 					}
 				}
 				// C02(d) / C03: at every commit everything at or before the stored position has been handled
@@ -1032,7 +1039,7 @@ func (a *analysis) checkApply(x *verifkit.Exec) {
 			if strings.Contains(spec, "+stale") && !strings.Contains(errText, "stale") {
 				a.bad("C16/stale-plan-applied", "the state changed between plan and apply but ApplyPlanLive did not refuse the plan as stale (returned %q) (event #%d)", errText, e.Seq)
 			}
-			if strings.Contains(spec, "+noauth") && !strings.Contains(spec, "+stale") && errText == "nil" && begin.Seq > 0 && wasRunningAt(a.evs, begin.Seq) {
+			if strings.Contains(spec, "+noauth") && !strings.Contains(spec, "+stale") && errText == "nil" && begin.Seq > 0 && (wasRunningAt(a.evs, begin.Seq) || statusAt(a.evs, begin.Seq) == "Recovering") {
 				a.bad("C16/running-pipeline-touched-without-authorisation", "a running pipeline was changed by a live apply without operator authorisation (event #%d)", e.Seq)
 			}
 			if refused {
